@@ -13,6 +13,8 @@ import (
 	"sort"
 	"strconv"
 	"strings"
+	"sync"
+	"runtime"
 	"testing"
 	"testing/synctest"
 	"time"
@@ -100,7 +102,9 @@ type env struct {
 	user   ds.Batching
 	st     *store.Store[*vh.Header]
 	calls  []call
+	callMu sync.Mutex
 	failAt int
+	failSet map[int]bool
 	panicK bool
 	up     bool
 }
@@ -139,13 +143,17 @@ func (e *env) open() error {
 	// two handlers: the first always succeeds, the second fails for failAt
 	s.OnDelete(func(ctx context.Context, h uint64) error {
 		_, err := s.GetByHeight(ctx, h)
+		e.callMu.Lock()
+		defer e.callMu.Unlock()
 		e.calls = append(e.calls, call{H: int(h), Handler: 1, Readable: err == nil, Out: "ok"})
 		return nil
 	})
 	s.OnDelete(func(ctx context.Context, h uint64) error {
 		_, err := s.GetByHeight(ctx, h)
 		c := call{H: int(h), Handler: 2, Readable: err == nil, Out: "ok"}
-		if int(h) == e.failAt {
+		e.callMu.Lock()
+		defer e.callMu.Unlock()
+		if int(h) == e.failAt || e.failSet[int(h)] {
 			if e.panicK {
 				c.Out = "panic"
 				e.calls = append(e.calls, c)
@@ -389,8 +397,33 @@ type stepOut struct {
 	pan any
 }
 
+// variant selects how a behaviour is driven.
+type variant struct {
+	name     string
+	nowait   bool // an Append directly followed by DeleteRange is not awaited (and not observed)
+	parallel bool // DeleteRange takes the parallel path (threshold lowered through the verif hook)
+	free     bool // hand-built scenario without model prediction: judged by the property layer only
+	failOp   int  // index of the op whose datastore writes fail transiently (-1: none)
+	failN    int
+}
+
+func parseVariant(s string) variant {
+	v := variant{name: s, failOp: -1}
+	switch {
+	case s == "nowait":
+		v.nowait = true
+	case s == "parallel":
+		v.parallel = true
+	case s == "free":
+		v.free = true
+	case strings.HasPrefix(s, "wfail:"):
+		fmt.Sscanf(s, "wfail:%d:%d", &v.failOp, &v.failN)
+	}
+	return v
+}
+
 // doOp executes one abstract operation and returns the recorded event.
-func (e *env) doOp(op map[string]any, idx int) (ev Event) {
+func (e *env) doOp(op map[string]any, idx int, v variant, skipWait, last bool) (ev Event) {
 	name := mbt.Str(op, "op")
 	ev = Event{Op: name, B: ints(op["b"]), From: mbt.Int(op, "from"), To: mbt.Int(op, "to"), FailAt: mbt.Int(op, "failAt"),
 		Res: "ok", Calls: []call{}, N: e.cfg.n}
@@ -418,12 +451,30 @@ func (e *env) doOp(op map[string]any, idx int) (ev Event) {
 		case "sync":
 			err = e.st.Sync(bg)
 		case "delete":
+			if ev.From < 0 { // "from the current tail" (retry of a tail-side deletion)
+				if tl, terr := e.st.Tail(bg); terr == nil {
+					ev.From = int(tl.Height())
+				} else {
+					ev.From = 0
+				}
+			}
 			e.failAt = ev.FailAt
+			e.failSet = map[int]bool{}
+			for _, f := range ints(op["failSet"]) {
+				e.failSet[f] = true
+			}
 			e.panicK = (idx+ev.FailAt)%2 == 1
 			ctx, cancel := context.WithTimeout(bg, time.Hour)
-			err = e.st.DeleteRange(ctx, uint64(ev.From), uint64(ev.To))
+			if (v.parallel && last) || mbt.Bool(op, "par") {
+				old := store.VerifSetDeleteParallelThreshold(2)
+				err = e.st.DeleteRange(ctx, uint64(ev.From), uint64(ev.To))
+				store.VerifSetDeleteParallelThreshold(old)
+			} else {
+				err = e.st.DeleteRange(ctx, uint64(ev.From), uint64(ev.To))
+			}
 			cancel()
 			e.failAt = 0
+			e.failSet = nil
 		case "stop":
 			err = e.stop()
 		case "start":
@@ -432,6 +483,12 @@ func (e *env) doOp(op map[string]any, idx int) (ev Event) {
 			err = fmt.Errorf("unknown op %s", name)
 		}
 	}()
+	if skipWait {
+		return ev
+	}
+	if v.failOp >= 0 {
+		time.Sleep(30 * time.Second) // virtual: lets the flush retry loop finish
+	}
 	synctest.Wait()
 	if err != nil && ev.Res != "panic" {
 		ev.Res = "err"
@@ -493,6 +550,53 @@ func wsEq(got []W, want []any) bool {
 // runBehaviour replays one exported behaviour; mode "crash" additionally reopens the store on every
 // write-log prefix of the last operation.
 func runBehaviour(t *testing.T, id int, c map[string]any, cacheSz int, crash bool, tw, rw *mbt.Writer) {
+	v := parseVariant(mbt.Str(c, "variant"))
+	if v.nowait {
+		// first an ordinary run to obtain the synced observations of the steps that will not be awaited
+		base := runOnce(t, id, c, cacheSz, variant{name: "base", failOp: -1}, nil)
+		if base.fatal != "" {
+			return
+		}
+		old := runtime.GOMAXPROCS(1)
+		defer runtime.GOMAXPROCS(old)
+		r := runOnce(t, id, c, cacheSz, v, base.events)
+		emit(id, c, r, tw, rw)
+		return
+	}
+	r := runOnce(t, id, c, cacheSz, v, nil)
+	emit(id, c, r, tw, rw)
+	if crash && r.fatal == "" && v.name == "" {
+		crashPrefixes(t, id, c, cacheSz, r, tw)
+	}
+}
+
+type runResult struct {
+	events       []Event
+	drift        []string
+	fatal        string
+	lastLogStart int
+	baseLog      []rec.Entry
+	cf           cfg
+}
+
+func emit(id int, c map[string]any, r runResult, tw, rw *mbt.Writer) {
+	for _, ev := range r.events {
+		tw.Put(ev)
+	}
+	res := mbt.Result{ID: id, Key: mbt.J(c["hist"]) + mbt.Str(c, "variant"), NonTriv: len(mbt.List(c, "hist")) > 1}
+	switch {
+	case r.fatal != "":
+		res.Verdict, res.Detail = "violation", r.fatal
+		res.Sig = map[string]any{"family": "store", "symptom": "start_failed"}
+	case len(r.drift) > 0:
+		res.Verdict, res.Detail = "drift", strings.Join(r.drift, "; ")
+	default:
+		res.Verdict = "ok"
+	}
+	rw.Put(res)
+}
+
+func runOnce(t *testing.T, id int, c map[string]any, cacheSz int, v variant, baseEvents []Event) (rr runResult) {
 	hist := mbt.List(c, "hist")
 	cf := cfg{ctx: mbt.Bool(c, "ctx"), bsz: mbt.Int(c, "bsz"), cache: cacheSz, n: mbt.Int(c, "n")}
 	var events []Event
@@ -501,6 +605,16 @@ func runBehaviour(t *testing.T, id int, c map[string]any, cacheSz int, crash boo
 	var lastLogStart int
 	var e *env
 	var baseLog []rec.Entry
+	defer func() {
+		rr = runResult{events: events, drift: drift, fatal: fatal, lastLogStart: lastLogStart, baseLog: baseLog, cf: cf}
+	}()
+	opName := func(i int) string {
+		if i < 0 || i >= len(hist) {
+			return ""
+		}
+		st, _ := hist[i].(map[string]any)
+		return mbt.Str(mbt.Map(st, "op"), "op")
+	}
 	synctest.Test(t, func(t *testing.T) {
 		e = newEnv(t, cf, nil)
 		if err := e.open(); err != nil {
@@ -515,11 +629,29 @@ func runBehaviour(t *testing.T, id int, c map[string]any, cacheSz int, crash boo
 				continue // model crash behaviours are not replayed directly (the harness enumerates prefixes itself)
 			}
 			lastLogStart = e.rs.LogLen()
-			ev := e.doOp(op, id+i)
-			ev.Tr, ev.I, ev.Cfg = id, i, cfgName(cf)
+			skip := v.nowait && opName(i) == "append" && opName(i+1) == "delete" && i < len(baseEvents)
+			if v.failOp == i && (opName(i) == "append" || opName(i) == "sync" || opName(i) == "stop") {
+				e.rs.FailWrites(0, v.failN)
+			}
+			ev := e.doOp(op, id+i, v, skip, i == len(hist)-1)
+			e.rs.ClearFails()
+			ev.Tr, ev.I, ev.Cfg = id, i, cfgName(cf)+","+v.name
+			if skip {
+				// the synced observation of this step comes from the awaited run of the same behaviour
+				ev.Obs, ev.WS, ev.Res = baseEvents[i].Obs, baseEvents[i].WS, baseEvents[i].Res
+				events = append(events, ev)
+				continue
+			}
 			events = append(events, ev)
 			if ev.Res == "panic" {
 				break
+			}
+			if v.nowait && i > 0 && opName(i-1) == "append" && opName(i) == "delete" {
+				// the write log of the unawaited append is merged into this step: no write-level comparison
+				ev.WS = nil
+			}
+			if v.free || (v.parallel && opName(i) == "delete" && ev.FailAt != 0) {
+				continue // the parallel path may remove headers above a failed one: outcome is judged by the property layer only
 			}
 			if ok, why := projEq(ev.Obs, mbt.Map(step, "proj"), e.up); !ok {
 				drift = append(drift, fmt.Sprintf("step %d (%s): %s", i, mbt.J(op), why))
@@ -527,7 +659,7 @@ func runBehaviour(t *testing.T, id int, c map[string]any, cacheSz int, crash boo
 			if wantRes := mbt.Str(op, "res"); mbt.Str(op, "op") == "delete" && wantRes != ev.Res {
 				drift = append(drift, fmt.Sprintf("step %d (%s): result %s, model %s", i, mbt.J(op), ev.Res, wantRes))
 			}
-			if !wsEq(ev.WS, mbt.List(op, "ws")) {
+			if ev.WS != nil && v.failOp < 0 && !(v.parallel && opName(i) == "delete") && !wsEq(ev.WS, mbt.List(op, "ws")) {
 				drift = append(drift, fmt.Sprintf("step %d (%s): writes %s, model %s", i, mbt.J(op), mbt.J(ev.WS), mbt.J(op["ws"])))
 			}
 		}
@@ -535,23 +667,11 @@ func runBehaviour(t *testing.T, id int, c map[string]any, cacheSz int, crash boo
 		_ = e.stop()
 		synctest.Wait()
 	})
-	for _, ev := range events {
-		tw.Put(ev)
-	}
-	res := mbt.Result{ID: id, Key: mbt.J(c["hist"]), NonTriv: len(hist) > 1}
-	switch {
-	case fatal != "":
-		res.Verdict, res.Detail = "violation", fatal
-		res.Sig = map[string]any{"family": "store", "symptom": "start_failed"}
-	case len(drift) > 0:
-		res.Verdict, res.Detail = "drift", strings.Join(drift, "; ")
-	default:
-		res.Verdict = "ok"
-	}
-	rw.Put(res)
-	if !crash || fatal != "" {
-		return
-	}
+	return
+}
+
+func crashPrefixes(t *testing.T, id int, c map[string]any, cacheSz int, r runResult, tw *mbt.Writer) {
+	cf, baseLog, lastLogStart := r.cf, r.baseLog, r.lastLogStart
 	// C06: every prefix of the write log that ends inside (or right after) the last operation
 	nlog := len(baseLog)
 	for p := lastLogStart; p <= nlog; p++ {
